@@ -47,6 +47,7 @@ type Knobs struct {
 	Lazy         bool // HTTP/2 only: never close the request body on its own after the handler returned
 	PostAccept   int  // bytes accepted after the handler returned before the request body is closed (HTTP/2)
 	ExtraHeaders bool
+	NoFlusher    bool  // the handler's ResponseWriter is not an http.Flusher (a wrapping middleware hides it)
 	UpScript     []int // scripted read sizes (enumeration worlds); nil: use UpFrag
 	DownScript   []int
 	OneByteMax   int // one-byte delivery applies only to the first OneByteMax bytes of a direction (0: all)
@@ -247,14 +248,18 @@ func (c *Call) RequestStart() time.Time { return c.requestStart }
 
 // Exchange is one HTTP request/response pair.
 type Exchange struct {
-	uploadStopped  bool // HTTP/2, status above 299: the transport has stopped uploading the request body
-	pumpInRead     bool
-	CtxNoticedLate bool // the context finished while nobody was watching it; it was noticed when the request-body read returned
-	PumpErrLive    bool // the request body failed (not EOF) while the response was still open: stream reset
-	PumpErrLate    bool // ... after the response had ended: ignored
-	Call           *Call
-	Up             *Link // client -> handler (request body)
-	Down           *Link // handler -> client (response body)
+	everFlushed         bool // the handler called Flush
+	written             int  // bytes the handler wrote
+	snapTrailers        bool // the headers as of the first write announced trailers (Trailer header or TrailerPrefix keys)
+	UnchunkedNoTrailers bool // HTTP/1.1: trailers were lost because the response was not chunked
+	uploadStopped       bool // HTTP/2, status above 299: the transport has stopped uploading the request body
+	pumpInRead          bool
+	CtxNoticedLate      bool // the context finished while nobody was watching it; it was noticed when the request-body read returned
+	PumpErrLive         bool // the request body failed (not EOF) while the response was still open: stream reset
+	PumpErrLate         bool // ... after the response had ended: ignored
+	Call                *Call
+	Up                  *Link // client -> handler (request body)
+	Down                *Link // handler -> client (response body)
 
 	mu              sync.Mutex
 	ReqHeader       http.Header // as the handler sees it
@@ -394,11 +399,36 @@ func (n *Net) Do(req *http.Request) (*http.Response, error) {
 		ContentLength: -1,
 		Request:       req,
 	}
+	announceTrailers(resp, c.K.DropTrailers)
 	resp.Body = &respBody{e: e, resp: resp}
 	e.resp = resp
 	e.RespReturned = true
 	e.updateDeaf()
 	return resp, nil
+}
+
+// announceTrailers does what net/http's transports do with a Trailer header:
+// it is removed from the headers, and every key it names is listed in
+// Response.Trailer, mapped to nil until the trailers arrive.
+func announceTrailers(resp *http.Response, dropped bool) {
+	vs, ok := resp.Header["Trailer"]
+	if !ok {
+		return
+	}
+	delete(resp.Header, "Trailer")
+	if dropped {
+		return
+	}
+	for _, v := range vs {
+		for _, k := range strings.Split(v, ",") {
+			if k = textproto.CanonicalMIMEHeaderKey(strings.TrimSpace(k)); k != "" {
+				if resp.Trailer == nil {
+					resp.Trailer = http.Header{}
+				}
+				resp.Trailer[k] = nil
+			}
+		}
+	}
 }
 
 func closeBody(req *http.Request) {
@@ -615,7 +645,10 @@ func (e *Exchange) runHandler() {
 			sreq.Proto, sreq.ProtoMinor = "HTTP/1.0", 0
 		}
 	}
-	rw := &respWriter{e: e}
+	var rw http.ResponseWriter = &respWriter{e: e}
+	if c.K.NoFlusher {
+		rw = plainWriter{rw}
+	}
 	func() {
 		defer func() {
 			if r := recover(); r != nil {
@@ -692,6 +725,15 @@ func (e *Exchange) finishHandler() {
 		}
 	}
 	e.Trailer = tr
+	if !e.Call.K.HTTP2 && !e.everFlushed && e.written <= 2048 && !e.snapTrailers {
+		// net/http's HTTP/1.1 server decides the framing when the first bytes
+		// leave its 2 KiB buffer. If that is only now, the handler having
+		// returned, and the headers as they were at the first write announce no
+		// trailers, the response gets a Content-Length: it is not chunked, and
+		// there is nowhere to put trailers added since.
+		e.Trailer = http.Header{}
+		e.UnchunkedNoTrailers = len(tr) > 0
+	}
 	if e.Call.K.HTTP10 && !e.Call.K.HTTP2 {
 		// an HTTP/1.0 response is not chunked: there is nowhere to put trailers
 		e.Trailer = http.Header{}
@@ -743,7 +785,11 @@ func (e *Exchange) commitLocked(status int) {
 	snap := make(http.Header)
 	for k, vs := range e.live {
 		if strings.HasPrefix(k, http.TrailerPrefix) {
+			e.snapTrailers = true
 			continue
+		}
+		if textproto.CanonicalMIMEHeaderKey(k) == "Trailer" && len(vs) > 0 {
+			e.snapTrailers = true
 		}
 		addSanitized(snap, k, vs, e.Call.K.HTTP2)
 	}
@@ -779,15 +825,23 @@ func (w *respWriter) Write(p []byte) (int, error) {
 	if fail {
 		return 0, e.Call.K.FailWriteErr
 	}
-	return e.Down.Write(p, e.Call.K.AutoFlush)
+	e.mu.Lock()
+	e.written += len(p)
+	e.mu.Unlock()
+	return e.Down.Write(p, e.Call.K.AutoFlush && !e.Call.K.NoFlusher)
 }
 
 func (w *respWriter) Flush() {
 	w.e.mu.Lock()
 	w.e.commitLocked(http.StatusOK)
+	w.e.everFlushed = true
 	w.e.mu.Unlock()
 	w.e.Down.Flush()
 }
+
+// plainWriter hides everything but the three methods of http.ResponseWriter,
+// as a middleware's wrapper commonly does.
+type plainWriter struct{ http.ResponseWriter }
 
 // reqBody is the handler's view of the request body.
 type reqBody struct {
@@ -831,7 +885,13 @@ func (b *respBody) Read(p []byte) (int, error) {
 	if err == io.EOF {
 		b.e.mu.Lock()
 		if !b.e.Call.K.DropTrailers && b.e.Down.Consumed() && b.e.Down.cutAt < 0 && b.e.Trailer != nil {
+			announced := b.resp.Trailer
 			b.resp.Trailer = b.e.Trailer.Clone()
+			for k := range announced {
+				if _, ok := b.resp.Trailer[k]; !ok {
+					b.resp.Trailer[k] = nil // announced, never sent
+				}
+			}
 		}
 		b.e.mu.Unlock()
 	}
